@@ -2730,7 +2730,23 @@ func (fr *Frame) hintsAtCall(call *ssa.Call) {
 			kind = "assert"
 		}
 		for _, cj := range splitConj(ac.Expr) {
-			fr.proveSpecEnv(kind, fmt.Sprintf("assertion before call %s#%d: %s", ac.Callee, ac.N, cj.String()), cl, cj, se)
+			cj := cj
+			func() {
+				if kind == "hint" {
+					// a proof hint is an aid, not a claim: one that no longer matches the code (a renamed local)
+					// is skipped with a note instead of making the whole function undecided
+					defer func() {
+						if r := recover(); r != nil {
+							if se2, ok := r.(specError); ok && strings.Contains(se2.msg, "unknown identifier") {
+								fr.c().note(fmt.Sprintf("proof hint skipped in %s (%s): %s", fr.fn.Name(), se2.msg, cj.String()))
+								return
+							}
+							panic(r)
+						}
+					}()
+				}
+				fr.proveSpecEnv(kind, fmt.Sprintf("assertion before call %s#%d: %s", ac.Callee, ac.N, cj.String()), cl, cj, se)
+			}()
 		}
 	}
 }
